@@ -9,6 +9,7 @@ from __future__ import annotations
 
 from fractions import Fraction
 
+from . import poly as _poly
 from .poly import Poly, PW, as_poly, as_rat
 from .values import Unsupported, to_pw, simplify_scalar
 
@@ -110,6 +111,8 @@ def bound(v):
         if not r.den.is_const():
             raise Unsupported("rational array bound %r" % (r,))
         v = as_poly(r)
+    if _poly.SYM_SUBS and any(a[0] == "s" and a[1] in _poly.SYM_SUBS for a in v.atoms()):
+        v = as_poly(v.subs({("s", n): q for n, q in _poly.SYM_SUBS.items()}))
     c0 = Fraction(0)
     s = []
     for m, c in v.t.items():
@@ -123,6 +126,72 @@ def bound(v):
 
 
 _SIGN_CACHE = {}
+
+
+class NeedCase(Unsupported):
+    """the sign of an affine form in several size symbols is needed: the caller may re-analyse under each ordering"""
+
+    def __init__(self, p):
+        super().__init__("array bounds on different size symbols cannot be ordered: %r" % (p,))
+        self.p = p
+
+
+# Ordering assumptions of the current size case: affine forms (Bd, symbol part only) assumed positive and large.
+ASSUME = []
+
+
+def _solve(cols, target):
+    """exact solution x of  sum_j x_j cols[j] = target  (square or overdetermined, Fractions); None if singular/inconsistent"""
+    n, m = len(target), len(cols)
+    a = [[Fraction(cols[j][i]) for j in range(m)] + [Fraction(target[i])] for i in range(n)]
+    piv, r = [], 0
+    for c in range(m):
+        k = next((i for i in range(r, n) if a[i][c] != 0), None)
+        if k is None:
+            return None
+        a[r], a[k] = a[k], a[r]
+        d = a[r][c]
+        a[r] = [v / d for v in a[r]]
+        for i in range(n):
+            if i != r and a[i][c] != 0:
+                f = a[i][c]
+                a[i] = [v - f * w for v, w in zip(a[i], a[r])]
+        piv.append(c)
+        r += 1
+    if any(a[i][m] != 0 for i in range(r, n)):
+        return None
+    return [a[i][m] for i in range(m)]
+
+
+def _in_cone(target, gens):
+    """is target a non-negative combination of the generators (Caratheodory: of at most dim independent ones)?  Returns the
+    smallest positive multiplier used (for the threshold) or None"""
+    import itertools
+    n = len(target)
+    if all(t == 0 for t in target):
+        return None
+    for k in range(1, n + 1):
+        for sub in itertools.combinations(range(len(gens)), k):
+            x = _solve([gens[j] for j in sub], target)
+            if x is not None and all(v >= 0 for v in x) and any(v > 0 for v in x):
+                return min(v for v in x if v > 0)
+    return None
+
+
+def _sign_under_assumptions(p):
+    syms = sorted({n for n, _ in p.s} | {n for a in ASSUME for n, _ in a.s})
+    def vec(b):
+        d = dict(b.s)
+        return [Fraction(d.get(n, 0)) for n in syms]
+    gens = [vec(a) for a in ASSUME] + [[Fraction(int(i == j)) for i in range(len(syms))] for j in range(len(syms))]
+    t = vec(p)
+    lam = _in_cone(t, gens)
+    if lam is not None:
+        return 1, lam
+    lam = _in_cone([-v for v in t], gens)
+    if lam is not None:
+        return -1, lam
+    return None, None
 
 
 def sign_large(p):
@@ -139,7 +208,14 @@ def sign_large(p):
     elif all(c < 0 for c in coeffs):
         r = -1
     else:
-        raise Unsupported("array bounds on different size symbols cannot be ordered: %r" % (p,))
+        r, lam = _sign_under_assumptions(p) if ASSUME else (None, None)
+        if r is None:
+            raise NeedCase(p)
+        need = abs(Fraction(p.c)) / lam + 1
+        if need > Threshold.value:
+            Threshold.value = need
+        _SIGN_CACHE[p] = r
+        return r
     need = abs(Fraction(p.c)) / min(abs(c) for c in coeffs) + 1
     if need > Threshold.value:
         Threshold.value = need
@@ -250,3 +326,90 @@ def concrete_extent(p):
         if c.denominator == 1:
             return int(c)
     return None
+
+
+# ---------------------------------------------------------------------------- size cases
+class SizeCase:
+    """one ordering case of the grid sizes: assumptions `form > 0 (large)` plus substitutions `symbol := affine form` for the
+    equality branches (the symbol nx is never substituted: module-level constants of the oracles mention it)"""
+
+    def __init__(self, assume=(), subs=()):
+        self.assume = tuple(assume)
+        self.subs = tuple(subs)          # ((name, Bd), ...)
+
+    def label(self):
+        parts = ["%r > 0" % (a,) for a in self.assume] + ["%s = %r" % (n, b) for n, b in self.subs]
+        return ", ".join(parts)
+
+    def depth(self):
+        return len(self.assume) + len(self.subs)
+
+    def children(self, p):
+        """the three refinements on the sign of p (p is undecided under this case)"""
+        sym_part = Bd(0, p.s)
+        out = [SizeCase(self.assume + (sym_part,), self.subs), SizeCase(self.assume + (-sym_part,), self.subs)]
+        # equality: solve p == 0 for a symbol (not nx) with coefficient +-1 and no constant offset problems
+        cand = [(n, v) for n, v in p.s if n != "nx" and abs(v) == 1]
+        if cand and p.c == 0:
+            n, v = cand[0]
+            rest = Bd(0, tuple((m, -w / v) for m, w in p.s if m != n))
+            if all(w > 0 for _, w in rest.s):
+                def sub_bd(b):
+                    d = dict(b.s)
+                    k = d.pop(n, 0)
+                    for m, w in rest.s:
+                        d[m] = d.get(m, 0) + k * w
+                    return Bd(b.c, tuple(sorted((m, w) for m, w in d.items() if w != 0)))
+                new_assume, feasible = [], True
+                for a in self.assume:
+                    a2 = sub_bd(a)
+                    cs = [w for _, w in a2.s]
+                    if cs and all(w > 0 for w in cs):
+                        continue            # now trivially true
+                    if not cs or all(w < 0 for w in cs):
+                        feasible = False
+                        break
+                    new_assume.append(a2)
+                if feasible:
+                    out.append(SizeCase(new_assume, self.subs + ((n, rest),)))
+        return out
+
+
+CURRENT_CASE = [SizeCase()]
+
+
+def set_case(case):
+    """install a size case: ordering assumptions here, equalities as substitutions at the source of the size symbols"""
+    from . import poly
+    CURRENT_CASE[0] = case
+    ASSUME[:] = list(case.assume)
+    _SIGN_CACHE.clear()
+    poly.SYM_SUBS.clear()
+    for n, b in case.subs:
+        poly.SYM_SUBS[n] = b.poly()
+    for reg in CASE_CACHES:
+        reg.clear()
+
+
+CASE_CACHES = []      # dict caches that depend on the size case (registered by their owners)
+
+
+def run_under_size_cases(fn, opt_in, max_cases=27, max_depth=3):
+    """call fn(case) for the generic case; when an ordering between size symbols is needed (NeedCase) and the caller opted in,
+    re-run fn under each sign of the undecided form.  Returns [(case, result)]"""
+    work, done = [SizeCase()], []
+    try:
+        while work:
+            case = work.pop(0)
+            set_case(case)
+            try:
+                done.append((case, fn(case)))
+            except NeedCase as nc:
+                if not opt_in:
+                    raise
+                if case.depth() >= max_depth or len(work) + len(done) >= max_cases:
+                    raise Unsupported("too many size-ordering cases (last undecided form %r under [%s])" % (nc.p, case.label()))
+                work.extend(case.children(nc.p))
+    finally:
+        set_case(SizeCase())
+    return done
